@@ -222,15 +222,18 @@ func (l *Lexer) Split() []*Token {
 			tokLen = 0
 			var token *Token = nil
 
-			if next != '=' {
-				switch char {
-				case '!', '*', '+', '-', '/':
-					token = &Token{
-						Tp:   OPERATOR,
-						Data: string(char),
-						Pos:  i,
-					}
-				case '>', '<':
+			switch char {
+			case '*', '+', '-', '/':
+				// These never combine with a following =
+				token = &Token{
+					Tp:   OPERATOR,
+					Data: string(char),
+					Pos:  i,
+				}
+			case '!', '>', '<', '^', '~':
+				// ^ and ~ are operators only together with =, alone they
+				// still are part of the input and must not vanish
+				if next != '=' {
 					token = &Token{
 						Tp:   OPERATOR,
 						Data: string(char),
